@@ -22,6 +22,8 @@
 
 #include <algorithm>
 #include <cmath>
+#include <cstring>
+#include <cstdio>
 #include <filesystem>
 #include <iostream>
 #include <map>
@@ -191,7 +193,7 @@ struct Gen {
 
     GNode cmp() {
         GNode n; n.k = GNode::CMP; ++ncmp;
-        static const Strs pats = { "P*", "*", "'P*'", "I*", "X*", "*1", "\\*", "?P*", "P?", "*P*", "\\*P*", "OP_*", "'\\*'", "*L1", "*L*", "'*L2'", "*M", "O*1", "\\P1" };
+        static const Strs pats = { "P*", "*", "'P*'", "I*", "X*", "*1", "\\*", "?P*", "P?", "*P*", "\\*P*", "OP_*", "'\\*'", "*L1", "*L*", "'*L2'", "*M", "O*1", "\\P1", "P[12]*", "[!O]*", "*[1-2]", "[OP]P*", "P[!1]*", "[A-P]*", "*[]3]", "[^P]*_*", "*[3-1]", "P[1*", "'[O-P]?*'", "P\\1*", "*\\_1", "[\\O]P*" };
         switch (rng.below(14)) {
         case 0: n.func = rng.pick(Strs{ "FOPR", "FWCT", "FUX" }); break;
         case 1: n.func = rng.coin() ? "GOPR" : "GUX"; n.args = { rng.pick(Strs{ "G1", "G2", "'G1'", "G1", "G2", "'G2'", "G1", "G2", "G*", "G3" }) }; break;
@@ -252,6 +254,25 @@ static bool ownGlob(const char* p, const char* n) {
     if (*n == 0) return false;
     if (*p == '?') return ownGlob(p + 1, n + 1);
     if (*p == '\\') { return p[1] != 0 && p[1] == *n && ownGlob(p + 2, n + 1); }
+    if (*p == '[') {
+        // documented meaning of a bracket expression: the set of its members / ranges, `!` or `^` first negates,
+        // `]` first is a member; without a closing `]` the `[` stands for itself
+        const char* q = p + 1; bool neg = false;
+        if (*q == '!' || *q == '^') { neg = true; ++q; }
+        std::string members; std::vector<std::pair<char, char>> ranges; bool first = true, closed = false;
+        while (*q) {
+            if (*q == ']' && !first) { closed = true; ++q; break; }
+            first = false;
+            char a = *q++;
+            if (a == '\\') { if (!*q) return false; a = *q++; }
+            if (*q == '-' && q[1] && q[1] != ']') { char b = q[1]; q += 2; if (b == '\\') { if (!*q) return false; b = *q++; } ranges.push_back({ a, b }); }
+            else members += a;
+        }
+        if (!closed) return *n == '[' && ownGlob(p + 1, n + 1);
+        bool in = members.find(*n) != std::string::npos;
+        for (auto& r : ranges) if (r.first <= *n && *n <= r.second) in = true;
+        return in != neg && ownGlob(q, n + 1);
+    }
     return *p == *n && ownGlob(p + 1, n + 1);
 }
 
@@ -461,6 +482,52 @@ static std::string randomToken(vh::Rng& rng) {
     return t;
 }
 
+// decimal / hexadecimal literals aimed at the rounding of strtod: long digit strings, ties, the
+// subnormal and overflow borders, exponents of every size
+static std::string randomLiteral(vh::Rng& rng) {
+    static const Strs fixed = { "9007199254740993", "9007199254740992", "9007199254740995", "0.1", "1e23", "8.5", "4.9e-324", "2.4703282292062327e-324",
+        "2.4703282292062328e-324", "2.47032822920623272e-324", "1.7976931348623157e308", "1.7976931348623158e308", "1.7976931348623159e308", "1e400", "1e-400", "2.2250738585072011e-308",
+        "2.2250738585072014e-308", "0x1.8p1", "0x1p-1074", "0x1p-1075", "0x1.8p-1075", "0x1.fffffffffffff8p1023", "0x1.fffffffffffff7p1023", "0X.8P+1", "0x10.p-4", "1E+5", "-0", "-0.0e9", "+.5E-1",
+        "0e99999999999", "1e99999999999", "1e-99999999999", "0x1p99999999999", "0x0p99999999999", "0x1p-99999999999", "000123.4500e-0007", "5e-324", "3e-324", "2e-324", "0.5", "1.5", "2.5", "12.5", "7.50" };
+    if (rng.range(0, 5) == 0) { std::string t = rng.pick(fixed); if (rng.range(0, 3) == 0) t = rng.pick(Strs{ "-", "+", " ", " -", "\t+" }) + t; return t; }
+    std::string t;
+    if (rng.range(0, 6) == 0) t += rng.pick(Strs{ " ", "\t", "  " });
+    if (rng.range(0, 2) == 0) t += rng.pick(Strs{ "-", "+" });
+    const bool hexa = rng.range(0, 5) == 0;
+    const std::string digs = hexa ? "0123456789abcdefABCDEF" : "0123456789";
+    if (hexa) t += rng.pick(Strs{ "0x", "0X" });
+    int ni = rng.range(0, rng.range(0, 1) ? 22 : 4), nf = rng.range(0, rng.range(0, 1) ? 22 : 4);
+    for (int i = 0; i < ni; ++i) t += (i == 0 && rng.range(0, 3) == 0) ? '0' : digs[rng.range(0, (int)digs.size() - 1)];
+    if (nf > 0 || rng.range(0, 3) == 0) { t += "."; for (int i = 0; i < nf; ++i) t += digs[rng.range(0, (int)digs.size() - 1)]; }
+    if (rng.range(0, 1)) {
+        t += hexa ? rng.pick(Strs{ "p", "P" }) : rng.pick(Strs{ "e", "E" });
+        t += rng.pick(Strs{ "", "", "+", "-" });
+        int ne = rng.range(0, 4);
+        if (rng.range(0, 9) == 0) t += "00";
+        for (int i = 0; i < ne; ++i) t += "0123456789"[rng.range(0, 9)];
+        if (ne == 0 && rng.range(0, 3)) t += hexa ? rng.pick(Strs{ "1074", "1022", "1023", "1075", "-1074" }) : rng.pick(Strs{ "308", "309", "324", "323", "22", "23" });
+    }
+    if (rng.range(0, 30) == 0) t += rng.pick(Strs{ "x", " ", "e", ".", "f" });
+    return t;
+}
+
+// class of a token and, for a number, the bits of the value the real parser stores (parse_right)
+static std::string realNumval(const std::string& t) {
+    std::string ans = typeName(Action::Parser::get_type(t));
+    if (ans != "number") return ans;
+    std::string low; for (char c : t) low += static_cast<char>(std::tolower(static_cast<unsigned char>(c)));
+    if (low.find("nan(") != std::string::npos) return ans + " -";       // payload of nan(chars): not modelled
+    try {
+        Action::AST ast(Strs{ "FOPR", ">", t });
+        AstReader ar; ast.serializeOp(ar);
+        NodeInfo top = readNode(*ar.root);
+        if (top.children.size() != 2) return ans + " shape";
+        NodeInfo rhs = readNode(top.children[1]);
+        if (rhs.type != Action::TokenType::number) return ans + " notnumber";
+        return ans + " " + vh::hexF64(rhs.number);
+    } catch (const std::exception&) { return ans + " err"; }
+}
+
 int main(int argc, char** argv) {
     if (argc < 5) { std::cerr << "usage: action corr|prop <seed> <tier> <outdir>\n"; return 2; }
     const std::string mode = argv[1];
@@ -543,12 +610,50 @@ int main(int argc, char** argv) {
             sink.emit("action.classify " + vh::hex(t), ans);
             sink.count("classify"); sink.count(std::string("classify.") + (ans.substr(0, 3) == "cmp" ? "cmp" : ans));
         }
-        // fnmatch (shmatch) on patterns without bracket expressions
-        for (int i = 0; i < (thorough ? 20000 : 4000); ++i) {
-            static const Strs pa = { "P", "O", "1", "_", "*", "?", "\\", "*", "P" }, na = { "P", "O", "1", "_", "*", "?", "P", "1" };
-            std::string pt, nm; int lp = rng.range(0, 5), ln = rng.range(0, 5);
+        // the value of number tokens (parse_right -> strtod) and their class
+        for (int i = 0; i < (thorough ? 30000 : 6000); ++i) {
+            std::string t = (i % 3 == 0) ? randomToken(rng) : randomLiteral(rng);
+            std::string ans = realNumval(t);
+            sink.emit("action.numval " + vh::hex(t), ans);
+            sink.count("numval"); sink.count("numval." + ans.substr(0, ans.find(' ')));
+            if (ans.size() > 7 && ans.substr(0, 7) == "number ") {
+                const std::string b = ans.substr(7);
+                sink.count(b == "-" ? "numval.value.unmodelled" : (b.substr(1, 3) == "ff0" || b.substr(1, 3) == "ff8") ? "numval.value.infnan" :
+                           (b.substr(1) == "000000000000000") ? "numval.value.zero" : (b.substr(1, 3) == "000") ? "numval.value.subnormal" : "numval.value.normal");
+                if (t.find_first_of("xX") != std::string::npos) sink.count("numval.hex");
+            }
+        }
+        // fnmatch (shmatch) incl. bracket expressions
+        for (int i = 0; i < (thorough ? 40000 : 8000); ++i) {
+            static const Strs pa0 = { "P", "O", "1", "_", "*", "?", "\\", "*", "P" }, na = { "P", "O", "1", "_", "*", "?", "P", "1", "[", "]", "-", "!", "A", "B", "\\", "^" };
+            static const Strs pa1 = { "P", "O", "1", "_", "*", "?", "\\", "*", "P", "[", "[", "]", "]", "-", "-", "!", "^", "A", "B", "[!", "[P-", "[A-P]", "[]", "[1O]", "[!P]", "[^_]", "\\]", "[\\" };
+            const Strs& pa = (i % 4 == 0) ? pa0 : pa1;
+            std::string pt, nm; int lp = rng.range(0, (i % 4 == 0) ? 5 : 7), ln = rng.range(0, 5);
             for (int k = 0; k < lp; ++k) pt += rng.pick(pa);
             for (int k = 0; k < ln; ++k) nm += rng.pick(na);
+            if (i % 4 == 1 || i % 4 == 2) {
+                // pattern derived from the name: each name character becomes itself, `?`, a bracket expression that
+                // contains it (member, range, escaped, `]` first) or a negated one that does not; now and then a `*`
+                pt.clear(); if (nm.empty()) nm = "P1";
+                for (char ch : nm) {
+                    const std::string c(1, ch);
+                    const std::string esc = (ch == ']' || ch == '\\' || ch == '-' || ch == '!' || ch == '^' || ch == '[') ? "\\" + c : c;
+                    switch (rng.range(0, 9)) {
+                    case 0: pt += (ch == '*' || ch == '?' || ch == '[' || ch == '\\') ? "\\" + c : c; break;
+                    case 1: pt += "?"; break;
+                    case 2: pt += "[" + std::string(ch == ']' ? "]" : "") + rng.pick(Strs{ "", "A", "1O", "_" }) + (ch == ']' ? "" : esc) + rng.pick(Strs{ "", "B", "P" }) + "]"; break;
+                    case 3: pt += "[" + rng.pick(Strs{ "!", "^" }) + rng.pick(Strs{ "Q", "Z", "QZ", "R-Z", "2-9" }) + "]"; break;
+                    case 4: pt += "[" + std::string(1, static_cast<char>(ch - rng.range(0, 2))) + "-" + std::string(1, static_cast<char>(ch + rng.range(0, 2))) + "]"; break;
+                    case 5: pt += "[" + rng.pick(Strs{ "!", "^", "" }) + esc + rng.pick(Strs{ "", "-", "Q" }) + "]"; break;
+                    case 6: pt += "*"; if (rng.range(0, 1)) pt += esc == c ? c : "?"; break;
+                    case 7: pt += "[" + rng.pick(Strs{ "A-", "0-", "!0-" }) + esc + rng.pick(Strs{ "", "]", "Q" }) ; if (rng.range(0, 3)) pt += "]"; break;
+                    default: pt += (ch == '*' || ch == '?' || ch == '[' || ch == '\\') ? "\\" + c : c; break;
+                    }
+                }
+                if (rng.range(0, 7) == 0) pt += rng.pick(Strs{ "*", "[", "[!", "\\", "[a-", "]" });
+            }
+            if (pt.find('[') != std::string::npos) sink.count("glob.bracket");
+            if (pt.find('[') != std::string::npos && shmatch(pt, nm)) sink.count("glob.bracket.match");
             bool m = shmatch(pt, nm);
             sink.emit("action.glob " + vh::hex(pt) + " " + vh::hex(nm), m ? "1" : "0");
             sink.count("glob"); sink.count(m ? "glob.match" : "glob.nomatch");
@@ -632,6 +737,21 @@ int main(int argc, char** argv) {
                 if (std::string(typeName(Action::Parser::get_type(t))) != "expr") log.fail("token-class", t); else { log.ok(); ++stats["token_class"]; }
             for (const char* t : { "1", "1.5", "-1", "+2", ".5", "1.", "1e5", "1E-3", "2.5E+2", "007" })
                 if (std::string(typeName(Action::Parser::get_type(t))) != "number") log.fail("token-class", t); else { log.ok(); ++stats["token_class"]; }
+        }
+        // number tokens denote their value: a double printed with 17 significant digits (or an integer, or a
+        // multiple of 1/8 in plain notation) is a number token whose stored value is that double, bit for bit
+        for (int rep = 0; rep < (thorough ? 20000 : 4000); ++rep) {
+            double x; char buf[64];
+            switch (rng.range(0, 3)) {
+            case 0: { uint64_t b = (static_cast<uint64_t>(rng.range(0, 0x7fffffff)) << 33) ^ (static_cast<uint64_t>(rng.range(0, 0x7fffffff)) << 11) ^ static_cast<uint64_t>(rng.range(0, 0x7ff));
+                      std::memcpy(&x, &b, 8); if (!std::isfinite(x)) x = 1.0; std::snprintf(buf, sizeof buf, rng.coin(1, 2) ? "%.17g" : "%.16e", x); break; }
+            case 1: x = static_cast<double>(rng.range(-1000000, 1000000)); std::snprintf(buf, sizeof buf, "%.0f", x); break;
+            case 2: x = rng.range(-80000, 80000) * 0.125; std::snprintf(buf, sizeof buf, "%.3f", x); break;
+            default: x = std::ldexp(static_cast<double>(rng.range(1, 0x7fffffff)), rng.range(-1100, 990)); std::snprintf(buf, sizeof buf, rng.coin(1, 2) ? "%.17G" : "%.20e", x); break;
+            }
+            const std::string ans = realNumval(buf);
+            if (ans != "number " + vh::hexF64(x)) log.fail("number-value", std::string(buf) + " -> " + ans + " want " + vh::hexF64(x));
+            else { log.ok(); ++stats["number_value"]; }
         }
         // several actions over report steps, with redefinitions: every (name, id) respects its own limits and nothing is withheld
         for (int rep = 0; rep < (thorough ? 8000 : 2000); ++rep) {
